@@ -1027,7 +1027,9 @@ fn parse_till<'s>(cursor: &mut Cursor<'s>, end_delim: u8) -> Result<&'s str, Err
                 ),
             ));
         } else {
-            cursor.advance(1);
+            // skip one character, which may be longer than one byte
+            let len = cursor.rest().chars().next().map_or(1, |c| c.len_utf8());
+            cursor.advance(len);
         }
     }
     // don't include the closing delimiter
